@@ -70,6 +70,20 @@ CHECKS.update({
             TT_NOTE, "DESIGN.md 6/C17"),
 })
 
+FMT_NOTE = ("Trusted: TLC as evaluator of the format modules; the harness encoder is a driver only (expected values are read by TLA+ from the raw bytes; the share of generated "
+            "cases the spec regards as well-formed is reported).  This is the 'transcribe the function' use of TLA+: its strength is the enumeration around it, which is sampled for this property.")
+CHECKS.update({
+    "C04": ("model_checking", "TLA+ executable format definition (MSM.tla: masks, field-major satellite/signal arrays, popcount cell count) evaluated by TLC over traces of the real MSM4/MSM7 decoders",
+            "Every decode of an encoder-generated frame (14 types x mask shapes incl. empty, 1xN, 64x1, 8x8, sparse x field extremes incl. invalid markers and all-zero cells x flag x 0..N zero padding bytes up to "
+            "the 1023-byte limit), directly and through the handler's Analyse, is compared by TLC with MSM!DecodeMSM of the raw bytes: header fields, the three masks, satellite and signal lists, every "
+            "satellite-cell and signal-cell field with sign, each cell's satellite and signal id and its grouping.  MSM!WellFormedMSM decides the precondition.",
+            FMT_NOTE, "DESIGN.md 6/C04"),
+    "C05": ("model_checking", "TLA+ executable format definition (Base1005.tla incl. exact 4-decimal display arithmetic) evaluated by TLC over traces of the real 1005/1006 decoders and String()",
+            "Every decode (decoder and handler path, both log levels) of generated 1005/1006 frames is checked by TLC: fields as 64-bit sign-extended images of the 38-bit values, every decimal number shown by "
+            "String() against integer x 0.0001 to exactly four decimals (bit-serial quotient/remainder inside 32-bit integers), wrong type / too short => error.",
+            FMT_NOTE, "DESIGN.md 6/C05"),
+})
+
 NOT_YET = {}
 
 
